@@ -39,8 +39,9 @@ VARIABLES logM, logW,      \* per-process event sequences (bound once in Init)
           got,             \* last position reply received by the master from w
           swapst,          \* master's swap sub-state: <<>> | <<"drawn", i>> | <<"half", a, b>>
           used,            \* workers already paired in this swap round
-          stats            \* [acc, rej, nontrivial]: exchanges accepted / rejected / accepted with different energies
-vars == <<logM, logW, lm, lw, inbox, outbox, chain, wtask, got, swapst, used, stats>>
+          stats,           \* [acc, rej, nontrivial]: exchanges accepted / rejected / accepted with different energies
+          plist            \* pairs proposed in this round that have not had their draw yet
+vars == <<logM, logW, lm, lw, inbox, outbox, chain, wtask, got, swapst, used, stats, plist>>
 TraceInit == /\ TLCSet(1, 0)
              /\ logM = SelectSeq(Log, LAMBDA e : e.p = "M")
              /\ logW = [w \in W |-> SelectSeq(Log, LAMBDA e : e.p = ProcName(w))]
@@ -48,48 +49,58 @@ TraceInit == /\ TLCSet(1, 0)
              /\ inbox = [w \in W |-> <<>>] /\ outbox = [w \in W |-> <<>>]
              /\ chain = [w \in W |-> [n |-> 1, pos |-> InitPos[w], tp4 |-> Energy(InitPos[w]) * Beta4[w]]]
              /\ wtask = [w \in W |-> <<>>] /\ got = [w \in W |-> <<>>] /\ swapst = <<>> /\ used = {}
-             /\ stats = [acc |-> 0, rej |-> 0, nontrivial |-> 0]
+             /\ stats = [acc |-> 0, rej |-> 0, nontrivial |-> 0] /\ plist = <<>>
 EM == logM[lm]
 \* untempered energy reported by worker a in this round (the master divides by the inverse temperature)
 Untemper(a) == got[a][2] \div Beta4[a]
 \* ---- master events ----
-RejectOK(i) == \E a, b \in W \ used : a < b /\ ~Accept(a, b, Untemper(a), Untemper(b), i)
-CloseDraw == IF swapst = <<>> THEN TRUE ELSE swapst[1] = "drawn" /\ RejectOK(swapst[2])
-\* closing a pending (rejected) draw marks SOME unused pair as used
-MarkRejected(u2) == IF swapst = <<>> THEN u2 = used
-                    ELSE \E a, b \in W \ used : a < b /\ ~Accept(a, b, Untemper(a), Untemper(b), swapst[2]) /\ u2 = used \cup {a, b}
+\* The master logs the pairs it proposes in a round ("pairs", in the order it goes through them), one "draw" per pair, and the two
+\* update messages of an accepted exchange.  swapst: <<>> | <<"drawn", i, a, b>> (a draw made for pair (a, b), outcome not yet known)
+\* | <<"half", a, b>> (first update message of an accepted exchange sent)
+PairsValid(ps) == /\ \A k \in 1..Len(ps) : ps[k][1] \in W /\ ps[k][2] \in W /\ ps[k][1] < ps[k][2]
+                  /\ \A k, m \in 1..Len(ps) : k # m => {ps[k][1], ps[k][2]} \cap {ps[m][1], ps[m][2]} = {}     \* PairsDisjoint
+\* a pending draw that is not followed by update messages was a rejection: the exchange rule must say so for THAT pair
+\* (IF, not a disjunction: inside an action TLC explores both sides of a disjunction)
+CloseDraw == IF swapst = <<>> THEN TRUE
+             ELSE swapst[1] = "drawn" /\ ~Accept(swapst[3], swapst[4], Untemper(swapst[3]), Untemper(swapst[4]), swapst[2])
+Rejected == IF swapst = <<>> THEN FALSE ELSE swapst[1] = "drawn"
 MSendTask == /\ lm <= Len(logM) /\ EM.ev = "send" /\ EM.task # "update_position"
              /\ CloseDraw /\ swapst' = <<>>
+             /\ plist = <<>>                                       \* every proposed pair got its draw before the next request goes out
              /\ used' = {}
-             /\ stats' = IF swapst = <<>> THEN stats ELSE [stats EXCEPT !.rej = @ + 1]
+             /\ stats' = IF Rejected THEN [stats EXCEPT !.rej = @ + 1] ELSE stats
              /\ inbox' = [inbox EXCEPT ![EM.w] = Append(@, EM)] /\ lm' = lm + 1
-             /\ UNCHANGED <<logM, logW, lw, outbox, chain, wtask, got>>
+             /\ UNCHANGED <<logM, logW, lw, outbox, chain, wtask, got, plist>>
+MPairs == /\ lm <= Len(logM) /\ EM.ev = "pairs"
+          /\ swapst = <<>> /\ plist = <<>>
+          /\ PairsValid(EM.pairs)
+          /\ plist' = EM.pairs /\ lm' = lm + 1
+          /\ UNCHANGED <<logM, logW, lw, inbox, outbox, chain, wtask, got, swapst, used, stats>>
 MDraw == /\ lm <= Len(logM) /\ EM.ev = "draw"
-         /\ MarkRejected(used')
-         /\ Cardinality(W \ used') >= 2                         \* a draw is made only while an unused pair remains (PairsDisjoint)
-         /\ stats' = IF swapst = <<>> THEN stats ELSE [stats EXCEPT !.rej = @ + 1]
-         /\ swapst' = <<"drawn", EM.i>> /\ lm' = lm + 1
+         /\ CloseDraw
+         /\ plist # <<>>                                            \* one draw per proposed pair, in order
+         /\ stats' = IF Rejected THEN [stats EXCEPT !.rej = @ + 1] ELSE stats
+         /\ swapst' = <<"drawn", EM.i, Head(plist)[1], Head(plist)[2]>> /\ plist' = Tail(plist)
+         /\ used' = used \cup {Head(plist)[1], Head(plist)[2]} /\ lm' = lm + 1
          /\ UNCHANGED <<logM, logW, lw, inbox, outbox, chain, wtask, got>>
 \* as coded the first update goes to chain i (= the lower index a) and carries chain j's point, the second to j carrying i's
 MUpdate1 == /\ lm <= Len(logM) /\ EM.ev = "send" /\ EM.task = "update_position"
             /\ swapst # <<>> /\ swapst[1] = "drawn"
-            /\ \E b \in W \ (used \cup {EM.w}) :
-                 LET a == EM.w IN
-                    /\ a \notin used
-                    /\ Accept(IF a < b THEN a ELSE b, IF a < b THEN b ELSE a,
-                              Untemper(IF a < b THEN a ELSE b), Untemper(IF a < b THEN b ELSE a), swapst[2])
+            /\ LET a == swapst[3]  b == swapst[4] IN
+                    /\ EM.w = a
+                    /\ Accept(a, b, Untemper(a), Untemper(b), swapst[2])          \* the exchange rule for the pair that was proposed
                     /\ EM.pos = got[b][1] /\ EM.e = Untemper(b)                 \* HandOver: the other's point, untempered energy
                     /\ swapst' = <<"half", a, b>>
             /\ inbox' = [inbox EXCEPT ![EM.w] = Append(@, EM)] /\ lm' = lm + 1
-            /\ UNCHANGED <<logM, logW, lw, outbox, chain, wtask, got, used, stats>>
+            /\ UNCHANGED <<logM, logW, lw, outbox, chain, wtask, got, used, stats, plist>>
 MUpdate2 == /\ lm <= Len(logM) /\ EM.ev = "send" /\ EM.task = "update_position"
             /\ swapst # <<>> /\ swapst[1] = "half" /\ EM.w = swapst[3]
             /\ LET a == swapst[2] IN EM.pos = got[a][1] /\ EM.e = Untemper(a)
-            /\ used' = used \cup {swapst[2], swapst[3]} /\ swapst' = <<>>
+            /\ swapst' = <<>>
             /\ stats' = [stats EXCEPT !.acc = @ + 1,
                                       !.nontrivial = @ + (IF Untemper(swapst[2]) # Untemper(swapst[3]) THEN 1 ELSE 0)]
             /\ inbox' = [inbox EXCEPT ![EM.w] = Append(@, EM)] /\ lm' = lm + 1
-            /\ UNCHANGED <<logM, logW, lw, outbox, chain, wtask, got>>
+            /\ UNCHANGED <<logM, logW, lw, outbox, chain, wtask, got, used, plist>>
 MRecv == /\ lm <= Len(logM) /\ EM.ev = "recv" /\ outbox[EM.w] # <<>>
          /\ LET m == Head(outbox[EM.w]) IN
               /\ m.reply = EM.reply
@@ -97,7 +108,7 @@ MRecv == /\ lm <= Len(logM) /\ EM.ev = "recv" /\ outbox[EM.w] # <<>>
               /\ (EM.reply = "chain" => m.n = EM.n)
          /\ got' = IF EM.reply = "position" THEN [got EXCEPT ![EM.w] = <<EM.pos, EM.tp4>>] ELSE got
          /\ outbox' = [outbox EXCEPT ![EM.w] = Tail(@)] /\ lm' = lm + 1
-         /\ UNCHANGED <<logM, logW, lw, inbox, chain, wtask, swapst, used, stats>>
+         /\ UNCHANGED <<logM, logW, lw, inbox, chain, wtask, swapst, used, stats, plist>>
 \* ---- worker events ----
 EW(w) == logW[w][lw[w]]
 WRecv(w) == /\ lw[w] <= Len(logW[w]) /\ EW(w).ev = "recv" /\ inbox[w] # <<>> /\ wtask[w] = <<>>
@@ -112,20 +123,20 @@ WRecv(w) == /\ lw[w] <= Len(logW[w]) /\ EW(w).ev = "recv" /\ inbox[w] # <<>> /\ 
                                                      [] m.task = "update_position" -> <<>>
                                                      [] OTHER -> <<m.task>>]
             /\ inbox' = [inbox EXCEPT ![w] = Tail(@)] /\ lw' = [lw EXCEPT ![w] = @ + 1]
-            /\ UNCHANGED <<logM, logW, lm, outbox, got, swapst, used, stats>>
+            /\ UNCHANGED <<logM, logW, lm, outbox, got, swapst, used, stats, plist>>
 WStep(w) == /\ lw[w] <= Len(logW[w]) /\ EW(w).ev = "step" /\ wtask[w] # <<>> /\ wtask[w][1] = "advance" /\ wtask[w][2] > 0
             /\ EW(w).n = chain[w].n + 1
             /\ chain' = [chain EXCEPT ![w] = [n |-> EW(w).n, pos |-> EW(w).pos, tp4 |-> EW(w).tp4]]
             /\ wtask' = [wtask EXCEPT ![w] = <<"advance", @[2] - 1>>] /\ lw' = [lw EXCEPT ![w] = @ + 1]
-            /\ UNCHANGED <<logM, logW, lm, inbox, outbox, got, swapst, used, stats>>
+            /\ UNCHANGED <<logM, logW, lm, inbox, outbox, got, swapst, used, stats, plist>>
 WSend(w) == /\ lw[w] <= Len(logW[w]) /\ EW(w).ev = "send" /\ wtask[w] # <<>>
             /\ \/ wtask[w] = <<"advance", 0>> /\ EW(w).reply = "advance_complete"
                \/ wtask[w] = <<"send_position">> /\ EW(w).reply = "position" /\ EW(w).pos = chain[w].pos /\ EW(w).tp4 = chain[w].tp4
                \/ wtask[w] = <<"send_chain">> /\ EW(w).reply = "chain" /\ EW(w).n = chain[w].n
             /\ outbox' = [outbox EXCEPT ![w] = Append(@, EW(w))] /\ wtask' = [wtask EXCEPT ![w] = <<>>]
             /\ lw' = [lw EXCEPT ![w] = @ + 1]
-            /\ UNCHANGED <<logM, logW, lm, inbox, chain, got, swapst, used, stats>>
-MAct == MSendTask \/ MDraw \/ MUpdate1 \/ MUpdate2 \/ MRecv
+            /\ UNCHANGED <<logM, logW, lm, inbox, chain, got, swapst, used, stats, plist>>
+MAct == MSendTask \/ MPairs \/ MDraw \/ MUpdate1 \/ MUpdate2 \/ MRecv
 WAct(w) == WRecv(w) \/ WStep(w) \/ WSend(w)
 TraceNextFull == MAct \/ \E w \in W : WAct(w)             \* every interleaving of the per-process logs
 \* Partial-order reduction.  A worker's event is determined by its own log, touches only its own chain, task, cursor and the tail /
@@ -143,7 +154,7 @@ RECURSIVE SumLw(_)
 SumLw(n) == IF n = 0 THEN 0 ELSE SumLw(n - 1) + (lw[n] - 1)
 Consumed == (lm - 1) + SumLw(N)
 \* a trailing rejected draw is closed at the end of the master's log
-EndOK == lm > Len(logM) => CloseDraw
+EndOK == lm > Len(logM) => (CloseDraw /\ plist = <<>>)
 Progress == TLCSet(1, IF Consumed > TLCGet(1) THEN Consumed ELSE TLCGet(1))
 AtEnd == Consumed = Len(Log)
 Report == AtEnd => PrintT(<<"STATS", stats.acc, stats.rej + (IF swapst = <<>> THEN 0 ELSE 1), stats.nontrivial>>)
